@@ -175,6 +175,28 @@ def c08Statement (fs0 : FS) (invs impl : List String) : String := Id.run do
     fs := parseTree (fieldOf r "tree")
   return "ok"
 
+/-- C13: the reject files on disk hold the failed hunks of the failing patch.  `pushSpec` mirrors one
+documented defect (known finding `dup-entry-rej-overwrite`): if the failing patch has two failing file
+patches for the same file, the second reject file replaces the first, so only one file patch's hunks
+survive.  Such cases are reported as KNOWN instead of ok. -/
+def c13 (fs0 : FS) (invs impl : List String) (specV : String) : String := Id.run do
+  let mut fs := fs0
+  let mut dup := false
+  for (a, r) in invs.zip impl do
+    let inv := parseArgs (if a == "-" then [] else a.splitOn " ") ()
+    match plan inv.cfg fs with
+    | .apply range =>
+      match Abs.applyRange fs inv.cfg range 0 [] with
+      | .ok (_, _, rejs) =>
+        let names := rejs.map (fun x => components x.1)
+        if !inv.cfg.dryRun && names.any (fun n => (names.filter (· == n)).length > 1) then dup := true
+      | .error _ => pure ()
+    | _ => pure ()
+    fs := parseTree (fieldOf r "tree")
+  if specV != "ok" then return "FAIL:" ++ (specV.splitOn " ").headD ""
+  if dup then return "KNOWN:dup-entry-rej-overwrite"
+  return "ok"
+
 /-- C19 on the implementation: nothing outside the working directory appeared, vanished or changed -/
 def c19 (impl : List String) : String :=
   if impl.all (fun r => fieldOf r "outside" == "ok") then "ok" else "FAIL:touched-outside"
@@ -213,7 +235,7 @@ def step (fields : List String) : String :=
     let specV := specVerdict (parseTree tree) invs impl
     let c06 := if !par then "na" else if !(invs.all (rangeParses (parseTree tree))) then "na"
                else if specV != "ok" then "FAIL:differs-from-single-threaded:" ++ (specV.splitOn " ").headD "" else if !ok then "MODEL" else "ok"
-    s!"{cid} eq={boolS (ok || c06 == "na" && par)} firstbad={optNatS firstBad} C06={c06} SPEC={specVerdict (parseTree tree) invs impl} ABS={absVerdict (parseTree tree) invs impl} C08S={c08Statement (parseTree tree) invs impl} C10={c10 invs impl} C15={c15 impl} C19={c19 impl} C11={c11 impl} model={"|".intercalate m}"
+    s!"{cid} eq={boolS (ok || c06 == "na" && par)} firstbad={optNatS firstBad} C06={c06} SPEC={specVerdict (parseTree tree) invs impl} ABS={absVerdict (parseTree tree) invs impl} C08S={c08Statement (parseTree tree) invs impl} C13={c13 (parseTree tree) invs impl specV} C10={c10 invs impl} C15={c15 impl} C19={c19 impl} C11={c11 impl} model={"|".intercalate m}"
   | _ => "bad-line"
 
 /-- Engine `F` (C18): one invocation with the k-th file-system write failing.
